@@ -7,7 +7,7 @@ from vlib import engine, formats, gen, kal, runner
 
 ID = "C13"
 RULE = ("Compositions are generated as letter->count tables satisfying premise 1 (only ACGTUN, either case) or premise 2 "
-        "(>= 1/4 of residues from DEFHIKLMPQRSVWY, the rest from all 26 letters, either case), including exact-boundary "
+        "(>= 1/4 of residues from DEFHIKLMPQRSVWY, the rest from all 26 letters; lower-case rates drawn independently for the protein-only letters and the rest: 0, 2 %, 50 %, 98 %, 100 %), including exact-boundary "
         "tables (protein-only fraction exactly 1/4 with the remainder on one letter), then laid out as 2..40 sequences in "
         "a drawn order with drawn names; observed through kalign_arr_to_msa (array) and the FASTA/MSF/Clustal readers, "
         "also as gapped presentations (up to 95% gap characters). Oracle: reported biotype == expected kind, and equal "
@@ -44,8 +44,11 @@ def cases(draw, tier):
         else:
             fl = draw(st.lists(st.sampled_from(ALL), min_size=1, max_size=6, unique=True))
         res = [rnd.choice(pl) for _ in range(np)] + [rnd.choice(fl) for _ in range(total - np)]
-        if draw(st.booleans()):
-            res = [c.lower() if rnd.random() < 0.5 else c for c in res]
+        # case pattern: independent lower-case rates for the protein-only letters and for all the others
+        # (all upper / a few lower / half / almost all / all lower, in every combination)
+        p_po = draw(st.sampled_from([0.0, 0.0, 0.02, 0.5, 0.98, 1.0]))
+        p_other = draw(st.sampled_from([0.0, 0.0, 0.02, 0.5, 0.98, 1.0]))
+        res = [(c.lower() if rnd.random() < (p_po if c in PONLY else p_other) else c) for c in res]
         rnd.shuffle(res)
     res = "".join(res)
     nseq = draw(st.integers(2, min(40, max(2, len(res)))))
